@@ -12,7 +12,9 @@ RULE = ("total sample counts n: every n in 2..24 (quick) / 2..60 (thorough) plus
         "where products of n ratios and binomial-sized quantities leave the double range; for each n <= 400 every k in 2..n, both "
         "prior distributions (lognorm, gamma); a case is one (n, distribution) table; non-trivial when n >= 3 "
         "(the recursion over ancestors is exercised); plus approximate tables (approx_prior_size 10, 100, 1000 in a private "
-        "XDG_CACHE_HOME): rows from the cold (in-memory) and warm (cached) lookup table compared bit for bit")
+        "XDG_CACHE_HOME): rows from the cold (in-memory) and warm (cached) lookup table compared bit for bit; and 6 / 40 "
+        "sequences of 6-9 add(n, approximate in {None, True, False}) calls on ONE object owning a table (n on both sides of "
+        "10000), every added table compared bit for bit with a fresh object's (exact path whenever it must be)")
 ASSUME = ["the Python exact-rational reference (closed-form level weights) is tied to the Coq model by an exact "
           "comparison with the model evaluated on Q inside Coq for small n on every run, and to the Kingman jump "
           "chain by C14_kingman_bounded (n <= 24) and by a Python re-enumeration (n <= 9) on every run",
@@ -218,6 +220,74 @@ def approx_cold_warm(ctx, sizes):
             os.environ["XDG_CACHE_HOME"] = old
 
 
+def add_sequences(ctx, nseq):
+    """several add() calls on ONE ConditionalCoalescentTimes object that owns a lookup table (private
+    XDG_CACHE_HOME): random interleavings of add(n, approximate) with approximate in {None, True, False} and n on
+    both sides of DEFAULT_APPROX_PRIOR_SIZE.  After every call the row table just added must be bit-identical to
+    the one a FRESH object gives for the same (n, mode): exact whenever approximate is False, or None with
+    n < 10000 -- whatever was added before (no state may leak from one call to the next)."""
+    import os
+    import shutil
+    import logging
+    import numpy as np
+    import tsdate.prior as P
+    logging.getLogger().setLevel(logging.ERROR)
+    rng = ctx.rng
+    d = os.path.join(ctx.work, "xdg_c14_seq")
+    old = os.environ.get("XDG_CACHE_HOME")
+    big = P.DEFAULT_APPROX_PRIOR_SIZE
+    exact_cache = {}
+    try:
+        shutil.rmtree(d, ignore_errors=True)
+        os.makedirs(d)
+        os.environ["XDG_CACHE_HOME"] = d
+        for _ in range(nseq):
+            size = rng.choice([20, 50, 200, 500])
+            distr = rng.choice(["lognorm", "gamma"])
+            ns = rng.sample(range(2, 130), rng.randint(4, 7))
+            seq = [(n, rng.choice([None, None, True, False])) for n in ns]
+            pos = rng.randrange(len(seq))
+            if rng.random() < 0.5:
+                seq.insert(pos, (big + rng.randint(0, 3), None))         # switches approximation on by default
+            else:
+                seq.insert(pos, (rng.randint(2, 300), True))
+            seq.append((rng.randint(2, 130) + 130, None))              # a default call after approximation was used
+            rp = {"approx_prior_size": size, "distr": distr, "sequence": [[n, a] for n, a in seq], "n": seq[-1][0]}
+            try:
+                with np.errstate(all="ignore"):
+                    obj = P.ConditionalCoalescentTimes(size, distr)
+                    for i, (n, appr) in enumerate(seq):
+                        if n in obj.prior_store:
+                            continue
+                        obj.add(n, appr) if appr is not None else obj.add(n)
+                        use_approx = appr is True or (appr is None and n >= big)
+                        key = (n, use_approx, size if use_approx else None, distr)
+                        if key not in exact_cache:
+                            fresh = P.ConditionalCoalescentTimes(size if use_approx else None, distr)
+                            fresh.add(n, approximate=use_approx)
+                            exact_cache[key] = (distr, fresh[n])
+                        want = exact_cache[key][1]
+                        got = obj[n]
+                        if not (got.shape == want.shape and np.array_equal(got[2:], want[2:], equal_nan=True)):
+                            k = 2 + int(np.argmax(np.any(got[2:] != want[2:], axis=1))) if got.shape == want.shape else -1
+                            ctx.oracle_fail("add-sequence", "after the calls %r on one object (%s, table of %d tips) the rows for n=%d "
+                                            "(%s path expected) differ from a fresh object's: k=%d got %r want %r"
+                                            % ([[m, a] for m, a in seq[:i + 1]], distr, size, n, "approximate" if use_approx else "EXACT",
+                                               k, got[k].tolist() if k >= 0 else None, want[k].tolist() if k >= 0 else None),
+                                            dict(rp, sequence=[[m, a] for m, a in seq[:i + 1]], n=n))
+                            raise StopIteration
+            except StopIteration:
+                pass
+            except Exception as e:
+                ctx.oracle_fail("exception", "add sequence %r raised %s: %s" % (rp["sequence"], type(e).__name__, str(e)[:200]), rp)
+            ctx.case({"approx_prior_size": size, "distr": distr, "add-sequence": rp["sequence"]}, nontrivial=True, kind="add-sequence")
+    finally:
+        if old is None:
+            os.environ.pop("XDG_CACHE_HOME", None)
+        else:
+            os.environ["XDG_CACHE_HOME"] = old
+
+
 def kingman_reference_check(ctx, nmax):
     """Python re-enumeration of the Kingman chain against the closed-form reference (exact)
     and against the implementation"""
@@ -265,6 +335,7 @@ def run(ctx, model_ok=True):
             break
     kingman_reference_check(ctx, ctx.n(9, 11))
     approx_cold_warm(ctx, [10, 100, 1000])
+    add_sequences(ctx, ctx.n(6, 40))
     if not ctx.oracle_fails:
         for n, distrs in pick_big(ctx):
             if not oracle_big(ctx, n, distrs):
@@ -343,10 +414,42 @@ def search(ctx):
             return
 
 
+def replay_sequence(ctx, case):
+    import os
+    import shutil
+    import numpy as np
+    import tsdate.prior as P
+    d = os.path.join(ctx.work, "xdg_c14_replay")
+    shutil.rmtree(d, ignore_errors=True)
+    os.makedirs(d)
+    old = os.environ.get("XDG_CACHE_HOME")
+    os.environ["XDG_CACHE_HOME"] = d
+    try:
+        size, distr = case["approx_prior_size"], case["distr"]
+        with np.errstate(all="ignore"):
+            obj = P.ConditionalCoalescentTimes(size, distr)
+            for n, appr in case["sequence"]:
+                obj.add(n, appr) if appr is not None else obj.add(n)
+            n, appr = case["sequence"][-1]
+            use = appr is True or (appr is None and n >= P.DEFAULT_APPROX_PRIOR_SIZE)
+            fresh = P.ConditionalCoalescentTimes(size if use else None, distr)
+            fresh.add(n, approximate=use)
+        return bool(np.array_equal(obj[n][2:], fresh[n][2:], equal_nan=True))
+    except Exception:
+        return False
+    finally:
+        if old is None:
+            os.environ.pop("XDG_CACHE_HOME", None)
+        else:
+            os.environ["XDG_CACHE_HOME"] = old
+
+
 def replay(ctx, data):
     case = data.get("case") or {}
-    n = int(case["n"])
     before = len(ctx.oracle_fails)
+    if case.get("sequence"):
+        return replay_sequence(ctx, case)
+    n = int(case["n"])
     ds = [case["distr"]] if case.get("distr") else ["lognorm", "gamma"]
     if n > 450:
         oracle_big(ctx, n, ds)
